@@ -10,6 +10,8 @@ arrays are unmodified.  Inputs: FIPS-197 appendix vectors, all-zero, all-0xFF, r
 at every position (so every entry of every table is consumed), single-byte states, random; dtypes uint8/int16/int64.
 Call histories (HistoryKind): 2-4 calls in one process sharing memory images / ndarray objects / keys between calls, every
 result compared with the spec (the model of a pure function is history-free): hidden state between calls is seen.
+Count boundaries (CountsKind): one call on up to 131073 rows made of 2-4 distinct (key, block) pairs, run-length encoded;
+sampled rows in Coq against the pair's spec / model, the whole array in Python against those validated rows.
 """
 import numpy as np
 
@@ -963,5 +965,175 @@ class HistoryKind(Kind):
                 calls[i]['step'] = None
                 yield dict(case, calls=calls)
 
+# --------------------------------------------------------------------------------------------- count boundaries
+COUNTS_BIG = (255, 256, 257, 1023, 1024, 1025, 4097, 65535, 65536, 65537, 70000, 131073)
+COUNTS_SMALL = (255, 256, 257, 1023, 1024, 1025, 4097)
+MARKS = (255, 256, 257, 1023, 1024, 1025, 4095, 4096, 4097, 65535, 65536, 65537, 131071, 131072)
 
-KINDS = [CipherKind(), PrimKind(), ArkKind(), KeyScheduleKind(), HistoryKind(), SpecKatKind()]
+
+def _runs_for(n, m, k):
+    """run-length description of n rows over m distinct pairs: long runs whose borders fall off the powers of two, a short last run"""
+    a = n // 3 + (k % 5)
+    b = n // 3 + 1
+    tail = 1 + k % 3
+    c = n - a - b - tail
+    runs = [[0, a], [1 % m, b], [2 % m, c], [(m - 1), tail]]
+    return [r for r in runs if r[1] > 0]
+
+
+class CountsKind(Kind):
+    name = 'counts'
+    header = HDR
+    case_type = 'big_case'
+    check_fn = 'big_check'
+    explain_fn = 'big_expected'
+    shard = 10
+    rule = ('count boundaries: ONE call on n rows, n in 255/256/257/1023/1024/1025/4097/65535/65536/65537/70000/131073 for encrypt / decrypt '
+            '(many blocks one key, one block many keys, paired; a few stop points; the three key sizes) and n up to 4097 for the eight '
+            'primitives and key_schedule; the rows are 2-4 distinct (key, block) pairs given run-length encoded; in Coq the rows at the first '
+            'and last occurrence of every pair, around 256 / 1024 / 4096 / 65536 / 131072, the last three and a sample of 40 are compared with '
+            'the spec and the model of their pair; in Python the whole array is compared with these validated rows; non-trivial = always')
+
+    def gen(self, rng, tier):
+        k = 0
+        reps = 1 if tier == 'quick' else 3
+        for rep in range(reps):
+            for n in COUNTS_BIG:
+                for (km, bm) in ((False, True), (True, False), (True, True)):
+                    klen = KLENS[k % 3]
+                    nr = klen // 4 + 6
+                    m = 2 + k % 3
+                    key0, blk0 = _rand_row(rng, klen), _rand_row(rng, 16)
+                    pairs = [[_rand_row(rng, klen) if km else key0, _rand_row(rng, 16) if bm else blk0] for _ in range(m)]
+                    r, s = [(None, None), (1, 0), (nr, 3), (0, 3), (nr - 1, 2), (2, 1)][k % 6]
+                    yield {'fn': 'decrypt' if k % 2 else 'encrypt', 'key_many': km, 'blk_many': bm, 'pairs': pairs, 'runs': _runs_for(n, m, k),
+                           'round': r, 'step': s, 'dtype': ('uint8', 'uint8', 'int16', '>u2')[k % 4]}
+                    k += 1
+            for pi, (fn, _, w) in enumerate(PRIMS):
+                for n in COUNTS_SMALL:
+                    if tier == 'quick' and (pi + COUNTS_SMALL.index(n) + rep) % 2:
+                        continue
+                    m = 2 + k % 3
+                    yield {'fn': fn, 'pairs': [[[], _rand_row(rng, w)] for _ in range(m)], 'runs': _runs_for(n, m, k),
+                           'dtype': ('uint8', 'int64', '>i4')[k % 3]}
+                    k += 1
+            for klen in KLENS:
+                for n in COUNTS_SMALL:
+                    if tier == 'quick' and (klen // 8 + COUNTS_SMALL.index(n) + rep) % 2:
+                        continue
+                    m = 2 + k % 3
+                    yield {'fn': 'key_schedule', 'pairs': [[_rand_row(rng, klen), []] for _ in range(m)], 'runs': _runs_for(n, m, k),
+                           'dtype': ('uint8', 'uint16')[k % 2]}
+                    k += 1
+
+    @staticmethod
+    def _index(case):
+        return np.repeat(np.array([r[0] for r in case['runs']], dtype=np.int64), np.array([r[1] for r in case['runs']], dtype=np.int64))
+
+    def run(self, case):
+        import random
+        import scared
+        idx = self._index(case)
+        n = len(idx)
+        fn = case['fn']
+        dt = case.get('dtype', 'uint8')
+        keys = np.array([p[0] for p in case['pairs']], dtype=dt)
+        blks = np.array([p[1] for p in case['pairs']], dtype=dt)
+        if fn in ('encrypt', 'decrypt'):
+            key = keys[idx] if case['key_many'] else keys[0].copy()
+            blk = blks[idx] if case['blk_many'] else blks[0].copy()
+            args = [blk, key]
+            kw = {}
+            if case.get('round') is not None:
+                kw['at_round'] = case['round']
+            if case.get('step') is not None:
+                kw['after_step'] = case['step']
+            before = [a.copy() for a in args]
+            out = getattr(scared.aes, fn)(blk, key, **kw)
+        elif fn == 'key_schedule':
+            args = [keys[idx]]
+            before = [a.copy() for a in args]
+            out = scared.aes.key_schedule(args[0])
+        else:
+            args = [blks[idx]]
+            before = [a.copy() for a in args]
+            out = getattr(scared.aes, fn)(args[0])
+        out = np.asarray(out)
+        obs = {'shape': list(out.shape), 'inputs_unchanged': all(a.shape == b.shape and bool((a == b).all()) for a, b in zip(args, before))}
+        if out.ndim < 2 or out.shape[0] != n:
+            obs['rows'] = []
+            obs['whole'] = f'the result has shape {list(out.shape)} for {n} rows'
+            return obs
+        flat = out.reshape(n, -1)
+        # whole array against the rows at the first occurrence of each pair (those rows are validated in Coq)
+        first = {}
+        last = {}
+        pos = 0
+        for p, c in case['runs']:
+            first.setdefault(p, pos)
+            last[p] = pos + c - 1
+            pos += c
+        first_of = np.zeros(len(case['pairs']), dtype=np.int64)
+        for p, i in first.items():
+            first_of[p] = i
+        bad = np.nonzero((flat != flat[first_of[idx]]).any(axis=1))[0]
+        obs['whole'] = None
+        want = set(first.values()) | set(last.values()) | {n - 1, n - 2, n - 3} | {i for i in MARKS if i < n}
+        rs = random.Random(n * 31 + len(case['pairs']))
+        want |= {rs.randrange(n) for _ in range(40)}
+        if len(bad):
+            i = int(bad[0])
+            obs['whole'] = (f'row {i} of the result differs from row {int(first_of[idx[i]])}, which has the same key and block '
+                            f'({len(bad)} such rows, the last one {int(bad[-1])})')
+            want |= {i, int(bad[-1])}
+        obs['rows'] = [[i, [int(v) for v in flat[i]]] for i in sorted(x for x in want if 0 <= x < n)]
+        return obs
+
+    def coq(self, case, obs):
+        fn = case['fn']
+        if fn in ('encrypt', 'decrypt'):
+            f = '(BigCipher %s %s %s %s %s)' % (C.coq_bool(fn == 'decrypt'), C.coq_bool(case['key_many']), C.coq_bool(case['blk_many']),
+                                                 _opt_nat(case.get('round')), _opt_nat(case.get('step')))
+        elif fn == 'key_schedule':
+            f = 'BigKs'
+        else:
+            f = f'(BigPrim {PRIM[fn][1]})'
+        pairs = '(' + C.coq_list(case['pairs'], lambda p: '(%s, %s)' % (C.coq_list(p[0], str), C.coq_list(p[1], str))) + ')%N'
+        runs = C.coq_list(case['runs'], lambda r: f'({int(r[0])}%nat, {int(r[1])}%N)')
+        rows = '(' + C.coq_list(obs.get('rows', []), lambda r: '(%d, %s)' % (r[0], C.coq_list([v for v in r[1] if v >= 0], str))) + ')%N'
+        shape = '(' + C.coq_list(obs.get('shape', []), str) + ')%N'
+        return '{| bg_fn := %s; bg_pairs := %s; bg_runs := %s; bg_shape := %s; bg_rows := %s |}' % (f, pairs, runs, shape, rows)
+
+    def oracle(self, case, obs):
+        n = sum(r[1] for r in case['runs'])
+        if 'raised' in obs:
+            return f'{case["fn"]} on {n} rows raised {obs["raised"]}: {obs["msg"]}'
+        if obs.get('whole'):
+            return f'{case["fn"]} on {n} rows: {obs["whole"]}'
+        if not obs['inputs_unchanged']:
+            return f'{case["fn"]} on {n} rows modified the caller\'s arrays'
+        return None
+
+    def features(self, case, obs):
+        return {'fn': case['fn'], 'n': sum(r[1] for r in case['runs']), 'pairs': len(case['pairs']),
+                'shape': ('K' if case.get('key_many') else 'k') + ('B' if case.get('blk_many') else 'b')}
+
+    def tags(self, case, obs):
+        return ['counts', 'counts_' + ('cipher' if case['fn'] in ('encrypt', 'decrypt') else 'key_schedule' if case['fn'] == 'key_schedule' else 'primitive')]
+
+    def sample(self, case, obs):
+        return {'case': case, 'observed': dict(obs, rows=obs.get('rows', [])[:3])}
+
+    def shrink(self, case):
+        n = sum(r[1] for r in case['runs'])
+        m = len(case['pairs'])
+        for smaller in (257, 1025, 4097, 65537, 70000):
+            if smaller < n:
+                yield dict(case, runs=_runs_for(smaller, m, 0))
+        if case.get('round') is not None or case.get('step') is not None:
+            yield dict(case, round=None, step=None)
+        if case.get('dtype', 'uint8') != 'uint8':
+            yield dict(case, dtype='uint8')
+
+
+KINDS = [CipherKind(), PrimKind(), ArkKind(), KeyScheduleKind(), HistoryKind(), CountsKind(), SpecKatKind()]
